@@ -354,6 +354,25 @@ def gen_sentinel(rng, sol, variant='exc', per=2):
 
 
 # ------------------------------------------------------------------------------------------------
+def gen_reinit_same(names, variant='exc'):
+    """C14/C12: "immediately after masa_init ... sanity_check and init_param return 0" also when the handle already holds
+    an instance of the very same entry whose parameters were purged, and another handle is current in between"""
+    out = []
+    for i in range(0, len(names), 6):
+        S = []
+        for p in ('d', 'ld'):
+            S.append(['init', p, 'cxx', 'keeper', 'laplace_2d'])
+            for n in names[i:i + 6]:
+                if n not in CAT or CAT[n]['fixture']:
+                    continue
+                S += [['init', p, 'cxx', 're', n], ['purge', p, 'cxx'], ['sanity', p, 'cxx'], ['select', p, 'cxx', 'keeper'], ['purge', p, 'cxx'],
+                      ['init', p, 'cxx', 're', n], ['name', p, 'cxx'], ['sanity', p, 'cxx'], ['initp', p, 'cxx']]
+                S += [['getp', p, 'cxx', k] for k in CAT[n]['pars'][:4]]
+                S += [['select', p, 'cxx', 'keeper'], ['sanity', p, 'cxx'], ['initp', p, 'cxx']]
+        out.append(Execution(S, variant=variant, label='reinit-same:%d' % i))
+    return out
+
+
 def gen_catalogue(names, variant='exc'):
     """C14: per printed name: init, get_name, sanity, init_param, dimension, every documented evaluator
     at an interior point with default parameters; both precisions."""
@@ -964,6 +983,33 @@ def gen_init_orders(rng, variant='exc', alloc=False, fill=None):
 
 
 COORD_LETTERS = {'axi': 'rz', 'cart': 'xyz'}
+
+
+def gen_twins(rng, sol, variant='exc'):
+    """C12: two handles of the SAME solution type own independent instances, and a re-used handle owns a fresh one: the same
+    evaluations with the same parameters through handle a, then through a fresh handle b, then through a re-initialised a give
+    the same values (the specification's memo: identical key => bit-identical value) -- at the defaults first, then with every
+    parameter set.  State shared between instances (a class-level cache that lets the second instance skip its own set-up)
+    shows as a mismatch."""
+    e = CAT[sol]
+    picker = purity_picker(sol)
+    P = {k: picker(rng, sol, k) for k in e['pars']}
+    if sol == 'sod_1d':
+        P = {'Gamma': exact_double(rng, 1.2, 2.5), 'mu': exact_double(rng, 0.1, 0.4)}
+    V = {k: [exact_double(rng, 0.5, 3.0) for _ in range(3)] for k in e['vecs']}
+    cb = ['arr', hexf(1.5), hexf(0.5), hexf(2.0)]
+    evs = [(fn, sig, admissible_point(rng, sol, sig), rng.randint(1, max(1, e['dim']))) for fn, sig in provided(sol) for _ in range(2)]
+    S = []
+    for p in ('d', 'ld'):
+        def evals():
+            return [eval_line(p, 'cxx', fn, sig, pt, di, cb) for fn, sig, pt, di in evs]
+        def setall():
+            return [['setp', p, 'cxx', k, hexf(P[k])] for k in sorted(P)] + [['setv', p, 'cxx', k, len(V[k])] + [hexf(v) for v in V[k]] for k in sorted(V)]
+        S += [['init', p, 'cxx', 'a', sol]] + evals() + [['init', p, 'cxx', 'b', sol]] + evals()
+        S += [['select', p, 'cxx', 'a']] + setall() + evals() + [['select', p, 'cxx', 'b']] + setall() + evals()
+        S += [['init', p, 'cxx', 'a', sol]] + evals() + setall() + evals() + [['init', p, 'cxx', 'c', sol]] + setall() + evals()
+        S += sweep([('a', sol), ('b', sol), ('c', sol)], p, 'a')
+    return Execution(S, variant=variant, label='twins:%s' % sol)
 
 
 def gen_late(rng, variant='exc'):
